@@ -625,11 +625,28 @@ Proof.
     rewrite Hs, Ha, He; simpl. exists mh', gr. auto.
 Qed.
 
+Lemma vrel_box g j : vrel g j -> vrel (box g) j.
+Proof.
+  destruct 1 as [g j He| | | |]; simpl; try (constructor; constructor).
+  rewrite (erel_box _ _ He). constructor; exact He.
+Qed.
+
+(* a value handed over (argument list, literal, element, member, method result) is the same value *)
+Lemma pass_sim me je a jv :
+  env_rel me je -> jeval je a = Some jv -> exists g, pass_val me a = MOk g /\ vrel g jv.
+Proof.
+  intros Henv Ej. destruct a as [l|y]; simpl in *.
+  - inv Ej. exists (box_lit l). split; [reflexivity|]. destruct l; simpl; constructor; constructor.
+  - pose proof (env_get_rel _ _ y Henv) as Hr. rewrite Ej in Hr.
+    destruct (env_get y me) as [g|]; [|contradiction]. simpl.
+    exists (box g). split; [reflexivity|]. apply vrel_box; exact Hr.
+Qed.
+
 Lemma step_sim m j s j' outs :
   st_rel m j -> js_step j s = Some (j', outs, []) ->
   exists m', m_step m s = MOk (m', outs) /\ st_rel m' j'.
 Proof.
-  intros Hst Hs. pose proof Hst as [Henv Hh]. destruct s as [md recv f args|x y|x]; simpl in Hs.
+  intros Hst Hs. pose proof Hst as [Henv Hh]. destruct s as [md recv f args|x y|x|x a]; simpl in Hs.
   - destruct (js_call j recv f args) as [[[h r] fl]|] eqn:Ec; [|discriminate].
     destruct md as [x| |].
     + inv Hs. match goal with H : _ ++ _ = [] |- _ => apply app_eq_nil in H; destruct H as [-> Hu] end.
@@ -658,6 +675,10 @@ Proof.
     destruct (env_get x (m_env m)) as [gv|] eqn:Eg; [|contradiction].
     simpl. rewrite Eg; simpl. rewrite (vrel_text _ _ _ Hr Et); simpl.
     eexists; split; [reflexivity|]. exact Hst.
+  - destruct (jeval (j_env j) a) as [jv|] eqn:Ej; [|discriminate]. inv Hs.
+    destruct (pass_sim _ _ _ _ Henv Ej) as [g [Hp Hv]].
+    simpl. rewrite Hp; simpl. eexists; split; [reflexivity|]. split; simpl; auto.
+    apply env_set_rel; auto.
 Qed.
 
 (* C20_refine (partial: the listed deviations do not occur in the history) *)
@@ -681,6 +702,166 @@ Lemma alias_same st x y md f args :
   env_get x (m_env st) = env_get y (m_env st) ->
   m_step st (SCall md x f args) = m_step st (SCall md y f args).
 Proof. intros H. simpl. unfold m_call. rewrite H. reflexivity. Qed.
+
+Lemma env_get_set_same {V} x (v : V) e : env_get x (env_set x v e) = Some v.
+Proof.
+  induction e as [|[y w] e IH]; simpl.
+  - rewrite Nat.eqb_refl. reflexivity.
+  - destruct (Nat.eqb x y) eqn:E; simpl; rewrite E; auto.
+Qed.
+
+Lemma env_get_set_other {V} x z (v : V) e : z <> x -> env_get z (env_set x v e) = env_get z e.
+Proof.
+  intros Hz. induction e as [|[y w] e IH]; simpl.
+  - destruct (Nat.eqb z x) eqn:E; [apply Nat.eqb_eq in E; contradiction|reflexivity].
+  - destruct (Nat.eqb x y) eqn:E; simpl.
+    + apply Nat.eqb_eq in E; subst y.
+      destruct (Nat.eqb z x) eqn:E2; [apply Nat.eqb_eq in E2; contradiction|reflexivity].
+    + rewrite IH. reflexivity.
+Qed.
+
+(* handing an array over (mixin argument, element of an array of arrays, object member, result of a
+   method) binds the new name to the SAME location; no array is created or changed on the way, and
+   the old name keeps its binding *)
+Lemma pass_shares st x y l :
+  env_get y (m_env st) = Some (Arr l) ->
+  exists st', m_step st (SPass x (AVar y)) = MOk (st', []) /\
+    env_get x (m_env st') = Some (Arr l) /\ env_get y (m_env st') = Some (Arr l) /\
+    m_heap st' = m_heap st.
+Proof.
+  intros Hy. simpl. rewrite Hy; simpl. eexists; split; [reflexivity|]. simpl.
+  split; [apply env_get_set_same|]. split; [|reflexivity].
+  destruct (Nat.eq_dec y x) as [->|Hn]; [apply env_get_set_same|].
+  rewrite env_get_set_other; auto.
+Qed.
+
+(* the same on JavaScript's side *)
+Lemma pass_shares_js st x y l :
+  env_get y (j_env st) = Some (JArr l) ->
+  exists st', js_step st (SPass x (AVar y)) = Some (st', [], []) /\
+    env_get x (j_env st') = Some (JArr l) /\ env_get y (j_env st') = Some (JArr l) /\
+    j_heap st' = j_heap st.
+Proof.
+  intros Hy. simpl. rewrite Hy; simpl. eexists; split; [reflexivity|]. simpl.
+  split; [apply env_get_set_same|]. split; [|reflexivity].
+  destruct (Nat.eq_dec y x) as [->|Hn]; [apply env_get_set_same|].
+  rewrite env_get_set_other; auto.
+Qed.
+
+(* ---- two names bound to one value are interchangeable in every program that re-binds neither *)
+Lemma veq_get {V} x y u v (e : list (nat * V)) :
+  env_get x e = env_get y e -> veq x y u v -> env_get u e = env_get v e.
+Proof. intros H [->|[[-> ->]|[-> ->]]]; auto. Qed.
+
+Lemma arg_swap_eval env x y k a b :
+  env_get x env = env_get y env -> arg_swap x y a b -> eval_arg env k a = eval_arg env k b.
+Proof.
+  intros H Hs. destruct a as [l|u], b as [l'|v]; simpl in Hs; try contradiction.
+  - subst; reflexivity.
+  - simpl. rewrite (veq_get _ _ _ _ _ H Hs). reflexivity.
+Qed.
+
+Lemma args_swap_eval env x y var args args' :
+  env_get x env = env_get y env -> Forall2 (arg_swap x y) args args' ->
+  forall fixed, eval_args env fixed var args = eval_args env fixed var args'.
+Proof.
+  intros H Hf. induction Hf as [|a b args args' Hab Hf IH]; intros fixed.
+  - reflexivity.
+  - destruct fixed as [|k ks]; simpl.
+    + destruct var as [k|]; [|reflexivity].
+      rewrite (arg_swap_eval _ _ _ k _ _ H Hab), (IH []). reflexivity.
+    + rewrite (arg_swap_eval _ _ _ k _ _ H Hab), (IH ks). reflexivity.
+Qed.
+
+Lemma swapped_step st x y s s' :
+  env_get x (m_env st) = env_get y (m_env st) -> reads_swapped x y s s' -> m_step st s = m_step st s'.
+Proof.
+  intros H Hs. destruct Hs as [md u v f args args' Huv Ha|r u v Huv|u v Huv|r a b Hab]; simpl.
+  - unfold m_call. rewrite (veq_get _ _ _ _ _ H Huv). rewrite (Forall2_len _ _ _ Ha).
+    destruct (env_get v (m_env st)) as [[]|]; try reflexivity;
+      repeat match goal with |- context [match ?o with _ => _ end] => destruct o; try reflexivity end;
+      rewrite (args_swap_eval _ _ _ _ _ _ H Ha); reflexivity.
+  - rewrite (veq_get _ _ _ _ _ H Huv). reflexivity.
+  - rewrite (veq_get _ _ _ _ _ H Huv). reflexivity.
+  - destruct a as [l|u], b as [l'|v]; simpl in Hab; try contradiction.
+    + subst; reflexivity.
+    + simpl. rewrite (veq_get _ _ _ _ _ H Hab). reflexivity.
+Qed.
+
+(* a statement changes the binding of its binder only *)
+Lemma step_env_other st s st' o z :
+  m_step st s = MOk (st', o) -> binder s <> Some z -> env_get z (m_env st') = env_get z (m_env st).
+Proof.
+  intros Hs Hb. destruct s as [md recv f args|r u|u|r a]; simpl in Hs, Hb.
+  - destruct (m_call st recv f args) as [[h g]| |]; try discriminate. simpl in Hs.
+    destruct md as [r| |].
+    + inv Hs. simpl. apply env_get_set_other. congruence.
+    + destruct (gtext g); inv Hs. reflexivity.
+    + destruct (gtext g); inv Hs. reflexivity.
+  - destruct (env_get u (m_env st)); inv Hs. simpl. apply env_get_set_other. congruence.
+  - destruct (env_get u (m_env st)) as [g|]; try discriminate. simpl in Hs.
+    destruct (gtext g); inv Hs. reflexivity.
+  - destruct (pass_val (m_env st) a); inv Hs. simpl. apply env_get_set_other. congruence.
+Qed.
+
+Theorem names_interchangeable : forall x y p p' st,
+  env_get x (m_env st) = env_get y (m_env st) ->
+  Forall2 (swapped x y) p p' -> m_run p st = m_run p' st.
+Proof.
+  intros x y p p' st H Hf. revert st H.
+  induction Hf as [|s s' p p' [Hs [Hbx Hby]] Hf IH]; intros st H; [reflexivity|].
+  simpl. rewrite <- (swapped_step _ _ _ _ _ H Hs).
+  destruct (m_step st s) as [[st1 o1]| |] eqn:Es; try reflexivity. simpl.
+  rewrite (IH st1); [reflexivity|].
+  rewrite (step_env_other _ _ _ _ x Es Hbx), (step_env_other _ _ _ _ y Es Hby). exact H.
+Qed.
+
+(* the same statement about JavaScript: the spec demands what the code does *)
+Lemma swapped_step_js st x y s s' :
+  env_get x (j_env st) = env_get y (j_env st) -> reads_swapped x y s s' -> js_step st s = js_step st s'.
+Proof.
+  intros H Hs.
+  assert (Hargs : forall args args', Forall2 (arg_swap x y) args args' ->
+            omap (jeval (j_env st)) args = omap (jeval (j_env st)) args').
+  { induction 1 as [|a b args args' Hab Hf IH]; [reflexivity|]. simpl. rewrite IH.
+    destruct a as [l|u], b as [l'|v]; simpl in Hab; try contradiction.
+    - subst; reflexivity.
+    - simpl. rewrite (veq_get _ _ _ _ _ H Hab). reflexivity. }
+  destruct Hs as [md u v f args args' Huv Ha|r u v Huv|u v Huv|r a b Hab]; simpl.
+  - unfold js_call. rewrite (veq_get _ _ _ _ _ H Huv), (Hargs _ _ Ha). reflexivity.
+  - rewrite (veq_get _ _ _ _ _ H Huv). reflexivity.
+  - rewrite (veq_get _ _ _ _ _ H Huv). reflexivity.
+  - destruct a as [l|u], b as [l'|v]; simpl in Hab; try contradiction.
+    + subst; reflexivity.
+    + simpl. rewrite (veq_get _ _ _ _ _ H Hab). reflexivity.
+Qed.
+
+Lemma step_env_other_js st s st' o fl z :
+  js_step st s = Some (st', o, fl) -> binder s <> Some z -> env_get z (j_env st') = env_get z (j_env st).
+Proof.
+  intros Hs Hb. destruct s as [md recv f args|r u|u|r a]; simpl in Hs, Hb.
+  - destruct (js_call st recv f args) as [[[h g] fl0]|]; try discriminate.
+    destruct md as [r| |].
+    + inv Hs. simpl. apply env_get_set_other. congruence.
+    + destruct (jshow g); inv Hs. reflexivity.
+    + destruct (unit_meth f); inv Hs. reflexivity.
+  - destruct (env_get u (j_env st)); inv Hs. simpl. apply env_get_set_other. congruence.
+  - destruct (env_get u (j_env st)) as [g|]; try discriminate.
+    destruct (jshow g); inv Hs. reflexivity.
+  - destruct (jeval (j_env st) a); inv Hs. simpl. apply env_get_set_other. congruence.
+Qed.
+
+Theorem names_interchangeable_js : forall x y p p' st,
+  env_get x (j_env st) = env_get y (j_env st) ->
+  Forall2 (swapped x y) p p' -> js_run p st = js_run p' st.
+Proof.
+  intros x y p p' st H Hf. revert st H.
+  induction Hf as [|s s' p p' [Hs [Hbx Hby]] Hf IH]; intros st H; [reflexivity|].
+  simpl. rewrite <- (swapped_step_js _ _ _ _ _ H Hs).
+  destruct (js_step st s) as [[[st1 o1] f1]|] eqn:Es; try reflexivity.
+  rewrite (IH st1); [reflexivity|].
+  rewrite (step_env_other_js _ _ _ _ _ x Es Hbx), (step_env_other_js _ _ _ _ _ y Es Hby). exact H.
+Qed.
 
 Lemma upd_length {A} (l : list A) n x : length (upd l n x) = length l.
 Proof. revert n; induction l; intros [|n]; simpl; auto. Qed.
@@ -812,6 +993,39 @@ Proof. eexists. vm_compute. reflexivity. Qed.
 Example ex_model_runs :
   exists m', m_run ex_prog ex_m = MOk (m', [[]; []; B "1,2"; B "3,x"; B "2"; B "0"; B "2"]).
 Proof. eexists. vm_compute. reflexivity. Qed.
+
+(* mixin add(list, item): - list.push(item)  - list.sort()
+   a = ['d','b']; same = a; +add(a, 'c'); = a.join(','); = same.indexOf('c'); = a.length
+   (parameters of the call are the variables 10, 11) *)
+Definition ex_pass_prog : prog :=
+  [ SAlias 1 0;
+    SPass 10 (AVar 0); SPass 11 (ALit (LStr (B "c")));
+    SCall Discard 10 MPush [AVar 11];
+    SCall Discard 10 MSort [];
+    SCall Print 0 MJoin [ALit (LStr (B ","))];
+    SCall Print 1 MIndexOf [ALit (LStr (B "c"))];
+    SCall Print 0 MLength [] ].
+Definition ex_pass_m : mstate := {| m_env := [(0, Arr 0)]; m_heap := [[Str (B "d"); Str (B "b")]] |}.
+Definition ex_pass_j : jstate := {| j_env := [(0, JArr 0)]; j_heap := [[JStr (B "d"); JStr (B "b")]] |}.
+Example ex_pass_runs :
+  (exists j', js_run ex_pass_prog ex_pass_j = Some (j', [[]; []; B "b,c,d"; B "1"; B "3"], [])) /\
+  (exists m', m_run ex_pass_prog ex_pass_m = MOk (m', [[]; []; B "b,c,d"; B "1"; B "3"])).
+Proof. split; eexists; vm_compute; reflexivity. Qed.
+
+(* the hypothesis of names_interchangeable is satisfiable: the calls made through the parameter
+   (variable 10) written with the caller's variable 0 instead *)
+Example ex_swapped :
+  Forall2 (swapped 0 10)
+    [SCall Discard 10 MPush [ALit (LNum 1)]; SCall (Bind 3) 0 MSlice [ALit (LNum 0)]; SPrintVar 3]
+    [SCall Discard 0 MPush [ALit (LNum 1)]; SCall (Bind 3) 10 MSlice [ALit (LNum 0)]; SPrintVar 3].
+Proof.
+  assert (V1 : veq 0 10 10 0) by (right; right; auto).
+  assert (V2 : veq 0 10 0 10) by (right; left; auto).
+  assert (V3 : veq 0 10 3 3) by (left; auto).
+  constructor; [split; [constructor; [exact V1|repeat constructor]|simpl; split; discriminate]|].
+  constructor; [split; [constructor; [exact V2|repeat constructor]|simpl; split; congruence]|].
+  constructor; [split; [constructor; exact V3|simpl; split; discriminate]|]. constructor.
+Qed.
 
 (* ------------------------------------------------------------------ the sort used by S and M is a sort *)
 From Coq Require Import Permutation Sorted.
